@@ -66,8 +66,18 @@ impl MessageHandler for Recorder {
 }
 
 fn frame_json(f: &Frame) -> Value {
-	json!({"k": f.k, "t": f.t, "magic": f.magic, "len": f.len, "body": f.body, "need": f.need,
-		"count": f.count, "items": f.items, "extra": f.extra, "att": f.att})
+	// (an announced length beyond TLC's integers is 2^30 in the model, see Codec.tla RawWire)
+	let mut v = json!({"k": f.k, "t": f.t, "magic": f.magic, "len": f.len.min(1 << 30), "body": f.body, "need": f.need,
+		"count": f.count, "items": f.items, "extra": f.extra, "att": f.att});
+	// optional fields of Codec.tla frames
+	if !f.mix.is_empty() {
+		v["mix"] = json!(f.mix);
+	}
+	if f.k == "built" {
+		v["ver"] = json!(f.ver);
+		v["obj"] = f.obj.clone();
+	}
+	v
 }
 
 fn fixed(t: u8, sz: usize) -> Frame {
@@ -82,6 +92,7 @@ fn fixed(t: u8, sz: usize) -> Frame {
 		items: 0,
 		extra: 0,
 		att: 0,
+		..Default::default()
 	}
 }
 
@@ -104,6 +115,7 @@ fn random_frame(rng: &mut StdRng, last: bool) -> Frame {
 				items: c,
 				extra: 0,
 				att: 0,
+				..Default::default()
 			}
 		}
 		3 => {
@@ -119,6 +131,7 @@ fn random_frame(rng: &mut StdRng, last: bool) -> Frame {
 				items: c,
 				extra: 0,
 				att: 0,
+				..Default::default()
 			}
 		}
 		4 | 5 => {
@@ -134,6 +147,7 @@ fn random_frame(rng: &mut StdRng, last: bool) -> Frame {
 				items: n,
 				extra: 0,
 				att: 0,
+				..Default::default()
 			}
 		}
 		6 => {
@@ -149,6 +163,7 @@ fn random_frame(rng: &mut StdRng, last: bool) -> Frame {
 				items: 0,
 				extra: 0,
 				att: a,
+				..Default::default()
 			}
 		}
 		7 | 8 => {
@@ -164,6 +179,7 @@ fn random_frame(rng: &mut StdRng, last: bool) -> Frame {
 				items: 0,
 				extra: 0,
 				att: 0,
+				..Default::default()
 			}
 		}
 		9 => fixed(8, bh),
@@ -179,6 +195,7 @@ fn random_frame(rng: &mut StdRng, last: bool) -> Frame {
 			items: 0,
 			extra: 0,
 			att: 0,
+			..Default::default()
 		},
 		11 => Frame {
 			k: "raw".into(),
@@ -191,6 +208,7 @@ fn random_frame(rng: &mut StdRng, last: bool) -> Frame {
 			items: 0,
 			extra: 0,
 			att: 0,
+			..Default::default()
 		},
 		_ => Frame {
 			k: "headers".into(),
@@ -203,6 +221,7 @@ fn random_frame(rng: &mut StdRng, last: bool) -> Frame {
 			items: 2,
 			extra: 0,
 			att: 0,
+			..Default::default()
 		},
 	}
 }
@@ -425,13 +444,15 @@ pub fn record(args: &Args) -> i32 {
 				.as_array()
 				.map(|a| a.iter().map(|x| x.as_str().unwrap_or("").to_string()).collect())
 				.unwrap_or_else(|| frames.iter().map(|_| String::new()).collect());
+			// built frames are serialised with the version of the connection (Codec.tla WriterVersion)
+			let case_version = v["version"].as_u64().unwrap_or(0) as u32;
 			for rep in 0..2 {
 				let id = plans.len();
 				plans.push(SeqPlan {
 					id,
 					frames: frames.clone(),
 					kinds: kinds.clone(),
-					version: crate::run::VERSIONS[(ci + rep) % 4],
+					version: if case_version > 0 { case_version } else { crate::run::VERSIONS[(ci + rep) % 4] },
 					ncuts: if rep == 0 { 0 } else { rng.gen_range(1, 5) },
 					cutseed: rng.gen(),
 					case: v["case_id"].as_i64().unwrap_or(ci as i64),
